@@ -25,6 +25,7 @@ TRUSTED_BASE = [
     "hand-written model/DecodeLoop.v of reader/decompression.rs (BufReader over an abstract streaming decoder over Take, the end-of-block check, the snappy block with its CRC), tied to the crate by hook H4 (hooks/H4.diff): every end-of-block check the crate makes on the damaged files is replayed through the extracted model (same decoder request, same decision); the decoders are ABSTRACT (DecodeLoop.stream_decoder_contract, validated on the reads the crate made; not proved of the libraries); values: De.de on the decompressed bytes (abstraction stated in DecodeLoop.v)",
 ]
 ASSUMPTIONS = [
+    "a caller that keeps calling after errors (KEEP_CALLING more calls than values + 4): judged against Container.cr_run on the null codec -- the crate must reach end of stream when the model does (else: endless stream of errors) and must report only end of stream behind a first error on which the model latches (Broken / I/O; C17_once); NOT tied: the reader position behind an error INSIDE a value (how much of a string with invalid UTF-8 or an over-long length was consumed differs between model and crate on some inputs), so the items behind such an error are not compared one by one; compressed files: no whole-sequence model, and no model-free bound either (a block whose damaged count is large legitimately yields one error per announced object)",
     "proved (ContainerCodecDamage.v, model/ContainerCodec.v): WHOLE FILES with compressed blocks written by the writer model (any block codec, any session), read through the slice reader or a BufRead following any chunk plan, for every decoder meeting the contract (on cut streams: stream_codec_cut_ok), capacity >= 1, read policy: cut at ANY offset => inside the header an error, behind it the written metadata and a prefix of the written values then a non-give-up end, everything + end of stream only at/behind the end (C17_compressed_file_truncated; snappy: C17_snappy_file_truncated); the count of one block lowered / raised => the values before, the first c of the block, then an error (C17_compressed_file_count_changed; raised needs a root whose datums are not empty: C17_empty_datum_rejected, refuted for null / empty records); the payload of one block replaced by any bytes agreeing with the stream under the contract => only written values, in order (C17_compressed_file_payload_replaced); the model reader never gives up (C17_compressed_reader_total). Hypotheses shown necessary by computed counterexamples (ToyDamage.*)",
     "proved (DecodeLoopProofs.v) for every decoder meeting stream_decoder_contract, every BufReader capacity >= 1, chunking, read policy: count lowered => the first values then Err 'decompressed data left' (C17_compressed_count_lowered); bytes behind the stream inside the declared size => Err (C17_compressed_trailing_garbage; needs clause (iv), which multi-frame zstandard does not meet when the extra bytes are themselves a frame: observed and reported, the crate then reports the extra data or -- for a frame of no data -- accepts); declared size too small => Err provided the 16 bytes then found in place of the sync marker are not the marker (C17_compressed_cut_stream); in all cases the decoder's output is a prefix of the written data (C17_compressed_output_genuine: byte level; C17_compressed_values_genuine: every VALUE yielded was written, in order, for any value decoder that is prefix-deterministic -- vdec_prefix_det, which is NOT proved of De.de here: for the crate's deserializer the value-level claim is decided on the crate); snappy: count lowered, wrong CRC, size < 4 (C17_snappy_*)",
     "proved (slice reader, null codec): truncation at ANY offset of ANY byte string yields the same items as the longer input until it stops (C17_truncation_general), for written files a prefix of the written values then only error/end (C17_truncation_prefix); sync mismatch, data left in block, size beyond input, count too small are errors; an unrecoverable error is reported once, then end of stream (C17_once)",
@@ -82,6 +83,8 @@ def varint_histories(rng, tier):
         out.append((h, ops, list(range(len(values))), "null", bsz, label))
     return out
 
+KEEP_CALLING = 8
+
 SOURCES = ["slice", "(chunks 1)", "(chunks 2)", "(chunks 3)", "(chunks 64)"]
 
 def run(ctx):
@@ -109,7 +112,9 @@ def run(ctx):
         f = p["sink"]
         file_json[fi] = jsons[fi]
         exp = [h.spec[i]["dany"] for i in expected]
-        ncalls = len(exp) + 4
+        # the caller KEEPS CALLING after errors: room for every value, the errors of a damaged block and 8 more calls (the harness stops
+        # at the second end of stream)
+        ncalls = len(exp) + 4 + KEEP_CALLING
         hdr = p["built"]
         if directed:
             if any(r != "ok" for r, _ in p["ops"]):
@@ -121,6 +126,17 @@ def run(ctx):
                 for mode in SOURCES + ["(chunks %d %d %d)" % (rng.randint(1, 9), rng.randint(1, 9), rng.randint(1, 9))]:
                     cases.append("cr %s %s any %d" % (C.hx(f[:k]), mode, ncalls))
                     meta.append((fi, "trunc", k, exp, mode))
+            # one byte changed at EVERY offset behind the header (block count / size varints made negative, over-long or cut short; string
+            # bytes made invalid UTF-8, lengths made longer than the block, indices out of range; sync marker), read on by a caller that skips
+            # bad records, through the slice reader and chunked ones
+            for k in range(hdr, len(f)):
+                for mode in ("slice", rng.choice(["(chunks 1)", "(chunks 3)", "(chunks 64)"])):
+                    g = bytearray(f)
+                    g[k] = rng.choice([g[k] ^ 1, g[k] ^ 0x80, 0xFF, 0xC0, (g[k] + 2) & 0xFF, g[k] ^ 0x81])
+                    if bytes(g) == f:
+                        continue
+                    cases.append("cr %s %s any %d" % (C.hx(bytes(g)), mode, ncalls))
+                    meta.append((fi, "sync" if k >= len(f) - 16 else "corrupt", k, exp, mode))
             continue
         # truncation at every offset (sampled when long)
         offs = range(len(f)) if len(f) < 400 else sorted(set(list(range(hdr - 20, min(len(f), hdr + 120))) + rng.sample(range(len(f)), 100)))
@@ -198,6 +214,8 @@ def run(ctx):
             pass
         if items and items[-1][0] != "eof" and len(items) < len(exp) + 4:
             violations.append({"impl_case": line[:3000], "what": "no end of stream after %d calls" % len(items)})
+        # (a caller that keeps calling must reach end of stream: judged against the reader model below -- null codec; a block whose count
+        # was damaged into a large one legitimately gives one error per announced object, so no model-free bound is applied to compressed files)
         # after an I/O error: reported once, then end of stream
         for j in errs:
             if items[j][1] == "io" and any(it[0] != "eof" for it in items[j + 1:]):
@@ -206,6 +224,7 @@ def run(ctx):
         if len(samples) < 6 and kind != "trunc":
             samples.append({"damage": kind, "offset": k, "codec": c, "mode": mode, "result": [it[0] for it in items]})
     mm = C.run_parallel(C.AVROMODEL, mlines)
+    mpos = {i: j for j, i in enumerate(midx)}
     for i, rm in zip(midx, mm):
         a = cont.parse_cr(res[i])
         m = cont.parse_cr(rm)
@@ -218,7 +237,34 @@ def run(ctx):
         ka = ("open-err",) if a.get("open_err") else items_key(a.get("items", []))
         km = ("open-err",) if m.get("open_err") else items_key(m.get("items", []))
         if ka != km:
-            diffs.append({"impl_case": cases[i][:3000], "model_case": mlines[midx.index(i)][:3000], "impl": res[i][:500], "model": rm[:500]})
+            diffs.append({"impl_case": cases[i][:3000], "model_case": mlines[mpos[i]][:3000], "impl": res[i][:500], "model": rm[:500]})
+            continue
+        if a.get("open_err") or m.get("open_err"):
+            continue
+        # the WHOLE sequence of a caller that keeps calling after errors (Container.cr_run: an I/O or framing error -- state Broken -- is
+        # reported once, then end of stream; an error inside a value uses up one object of the block and the reader goes on)
+        ia, im = a.get("items", []), m.get("items", [])
+        fi, kind, k, exp, mode = meta[i]
+        sa, sm = items_key(ia, False), items_key(im, False)
+        m_eof = bool(im) and im[-1][0] == "eof"
+        a_eof = bool(ia) and ia[-1][0] == "eof"
+        je = next((j for j, it in enumerate(ia) if it[0] == "err"), None)
+        if m_eof and not a_eof:
+            nerr = sum(1 for it in ia if it[0] == "err")
+            violations.append({"impl_case": cases[i][:3000], "what": "%s at %d (%s): no end of stream after %d calls (%d errors, the last %d items are errors): a caller that keeps calling "
+                               "after an error never gets out; the reader model reaches end of stream after %d calls" % (
+                                   kind, k, mode, len(ia), nerr, next((x for x, it in enumerate(reversed(ia)) if it[0] != "err"), len(ia)), len(im)),
+                               "impl": res[i][:500], "model": rm[:300]})
+        elif je is not None and all(it[0] == "eof" for it in im[je + 1:]) and len(im) > je + 1 and (
+                any(it[0] == "ok" for it in ia[je + 1:]) or sum(1 for it in ia[je + 1:] if it[0] == "err") >= 2):
+            violations.append({"impl_case": cases[i][:3000], "what": "%s at %d (%s): the error of call %d is unrecoverable (I/O or framing: the reader model is in its Broken state and reports "
+                               "end of stream from then on) but the reader went on: %s" % (kind, k, mode, je, " ".join(it[0] for it in ia[je + 1:][:12])),
+                               "impl": res[i][:500], "model": rm[:300]})
+        elif sa != sm and je is not None and all(it[0] == "eof" for it in im[je + 1:]):
+            # (behind an error INSIDE a value the model's reader position is not tied to the crate's -- how much of a string with invalid
+            # UTF-8 / an over-long length has been consumed --: those tails are judged by the end-of-stream rule above only)
+            diffs.append({"impl_case": cases[i][:3000], "model_case": mlines[mpos[i]][:3000], "impl": res[i][:500], "model": rm[:500],
+                          "what": "item sequences of a caller that keeps calling after errors differ behind the first error"})
     dd = decodeloop.run_damaged(random.Random(ctx["seed"] * 7919 + 117), ctx["tier"])
     violations.extend(dd["violations"])
     diffs.extend(dd["diffs"])
@@ -253,7 +299,9 @@ def run(ctx):
                     "valid files (12 codec settings) x every truncation offset x single-byte corruption at every offset x object count "
                     "lowered/raised x I/O error at a read call; slice and chunked readers. Required: no panic/hang, only genuine values in order "
                     "for truncation / sync / count damage, sync and count damage reported as an error, end of stream after an I/O error; "
-                    "reader model vs crate on the null codec (items up to and including the first error); "
+                    "reader model vs crate on the null codec: the WHOLE item sequence of a caller that keeps calling (8 calls more than values + 4; stops at the second end of stream): same items; "
+                    "no end of stream where the model reaches it = endless stream of errors (violation), items behind an error the model latches on (Broken: I/O / framing) = violation; "
+                    "the multi-byte-varint files also with one byte changed at EVERY offset behind the header x {slice, chunked}; "
                     "compressed blocks (hook H4): codecs {deflate default/1, bzip2, xz, zstandard, snappy} x payloads x damage {count -1/+1, size -1/-2/+1, 1 or 5 foreign bytes behind the stream inside the size, stream twice, snappy CRC flip / little-endian / size 3 / payload bit} x BufReader capacity {1,7,8192} x source {slice, 1, 7 bytes per fill_buf}: "
                     "an error is reported, only genuine values before it, every end-of-block check replayed through the extracted model, decoder contract checked on the reads made",
             "samples": samples, "violations": violations, "model_diffs": diffs,
